@@ -235,6 +235,7 @@ for _cd in list(_REG.get("C03", [])):
         contract(P, _cd.name, list(_cd.targets), min_obligations=_cd.min_obligations)(_cd.fn)
 
 MUTANTS = [
+    dict(file=NW, func="Biclique.__init__", old='                        list(tensors.values()), "s ... -> ...", combine.lower()', new='                        torch.cat(list(tensors.values())), "s ... -> ...", combine.lower()', contracts=["Biclique"], name="seed C11e: connection outputs concatenated along the batch axis before the combine reduction"),
     dict(file="inferno/neural/synapses/expcurrent.py", func="DoubleExponentialCurrent.clear", old="        self.neg_current_.reset(0.0)", new="        self.pos_current_.reset(0.0)", contracts=["DoubleExponentialCurrent.forward"], name="seed C17e: clear never resets the rise component"),
     dict(file="inferno/neural/base.py", func="Connection.clear", old="        self.synapse.clear(**kwargs)", new="        self.synapse.clear()", contracts=["Connection.clear"]),
     dict(file="inferno/neural/base.py", func="Connection.clear", old="        Updatable.clear(self, **kwargs)\n", new="", contracts=["Connection.clear"]),
